@@ -14,7 +14,7 @@ var (
 	BadMethods = []string{"get", "Get", "POST", "HEAD", "PUT", "OPTIONS", "GETX", "GE", "CONNECT"}
 
 	// GoodVersions are "HTTP/1.1 (or a later 1.x)".
-	GoodVersions = []string{"HTTP/1.1", "HTTP/1.2", "HTTP/1.9", "HTTP/1.10", "HTTP/1.11", "HTTP/1.65535"}
+	GoodVersions = []string{"HTTP/1.1", "HTTP/1.2", "HTTP/1.9", "HTTP/1.10", "HTTP/1.11", "HTTP/1.65535", "HTTP/1.4294967297", "HTTP/1.999999999999999999"}
 	// LowVersions are well-formed versions the property refuses with 505
 	// (for ws.HTTPUpgrader majors >= 2 are open).
 	LowVersions = []string{"HTTP/1.0", "HTTP/0.9", "HTTP/0.1", "HTTP/2.0", "HTTP/2.1", "HTTP/3.0", "HTTP/10.1", "HTTP/0.0"}
@@ -28,7 +28,7 @@ var (
 	// (a minor number too long for an int is mathematically a later 1.x, which
 	// the unchanged library refuses as malformed: left open)
 	OpenVersions = []string{"HTTP/1.01", "HTTP/01.1", "HTTP/1.00", "HTTP/001.001", "HTTP/1.99999999999999999999",
-		"HTTP/1.18446744073709551617", "HTTP/1.36893488147419103233", "HTTP/1.9223372036854775809", "HTTP/1.184467440737095516161", "HTTP/1.018446744073709551617", "HTTP/1.4294967297"}
+		"HTTP/1.18446744073709551617", "HTTP/1.36893488147419103233", "HTTP/1.9223372036854775809", "HTTP/1.184467440737095516161", "HTTP/1.018446744073709551617"}
 	// NotOneVersions: the major numeral is not 1 but is congruent to 1 modulo
 	// 2^64 or 2^63 (k*2^64+1 for k = 1, 2, 3, 10; 2^63+1), or 2^32+1, with and
 	// without leading zeros and huge minors: must-fail for ws.Upgrader.
@@ -68,17 +68,20 @@ var (
 )
 
 var goodValues = [NumRequired][]string{
-	HHost:       Hosts,
-	HUpgrade:    {"websocket", "WebSocket", "WEBSOCKET", "webSocket", "Websocket"},
-	HConnection: {"Upgrade", "upgrade", "UPGRADE", "uPgRaDe", "keep-alive, Upgrade", "Upgrade, keep-alive", "a,Upgrade,b", "keep-alive ,  upgrade", "keep-alive,Upgrade", "close, x, y, UPGRADE", "Upgrade,Upgrade"},
-	HVersion:    {"13"},
-	HKey:        nil, // drawn
+	HHost:    Hosts,
+	HUpgrade: {"websocket", "WebSocket", "WEBSOCKET", "webSocket", "Websocket"},
+	HConnection: {"Upgrade", "upgrade", "UPGRADE", "uPgRaDe", "keep-alive, Upgrade", "Upgrade, keep-alive", "a,Upgrade,b", "keep-alive ,  upgrade", "keep-alive,Upgrade", "close, x, y, UPGRADE", "Upgrade,Upgrade",
+		// empty list members and HT as list blank (RFC 7230 #rule, OWS = SP / HTAB)
+		",Upgrade", "Upgrade,", "keep-alive,,Upgrade", " , ,upgrade", "Upgrade\t,keep-alive", "keep-alive,\tUpgrade", "keep-alive\t,\tUPGRADE", "a,\t \tupgrade\t ,b"},
+	HVersion: {"13"},
+	HKey:     nil, // drawn
 }
 
 var wrongValues = [NumRequired][]string{
 	HHost: nil, // "carrying Host": there is no wrong value (the empty one is open)
 	HUpgrade: {"websocket2", "h2c", "", "web socket", "websocke", "xwebsocket", "websocket/13", "websockets", "TLS/1.0", "web-socket", "websock\xc3\xa9t",
-		"web\xc5\xbfocket", "websoc\xe2\x84\xaaet", "WEB\xc5\xbfOC\xe2\x84\xaaET"}, // the last three: Unicode-fold-only matches (finding C09/upgrade-value-unicode-fold)
+		"web\xc5\xbfocket", "websoc\xe2\x84\xaaet", "WEB\xc5\xbfOC\xe2\x84\xaaET", // these three: Unicode-fold-only matches (finding C09/upgrade-value-unicode-fold)
+		"websocket, h2c", "h2c, websocket", "websocket,", "websocket websocket", "\"websocket\""}, // "Upgrade: websocket" is the whole value
 	HConnection: {"keep-alive", "Upgrades", "", "close", "xupgrade", "keep-alive, close", "up-grade", "Upgrade2", "keep-alive, Upgrades", "websocket"},
 	HVersion:    {"12", "8", "", "13, 8", "8, 13", "013", "14", "130", "1 3", "13x", "0", "1", "3", "x13", "13.0", "-13"},
 	HKey:        nil, // drawn: wrong lengths
@@ -87,8 +90,8 @@ var wrongValues = [NumRequired][]string{
 // open-class spellings (asserted only through the unconditional invariants)
 var openValues = [NumRequired][]string{
 	HHost:       {""},
-	HUpgrade:    {"websocket, h2c", "h2c, websocket", "websocket,"},
-	HConnection: {"keep-alive,\tUpgrade", "Upgrade\t,keep-alive", "\"Upgrade\"", "Upgrade;q=1", ",Upgrade", "Upgrade,", "a b, Upgrade", "keep-alive,,Upgrade", "(c) Upgrade", "Upgrade, \"x", "a=b, upgrade", "keep-alive, Upgr\xc3\xa4de"},
+	HUpgrade:    nil,
+	HConnection: {"\"Upgrade\"", "Upgrade;q=1", "a b, Upgrade", "(c) Upgrade", "Upgrade, \"x", "a=b, upgrade", "keep-alive, Upgr\xc3\xa4de", "keep-alive Upgrade"},
 	HVersion:    nil,
 	HKey:        {"AAAAAAAAAAAAAAAAAAAAAAAA", "!!!!!!!!!!!!!!!!!!!!!!!!", "AAAAAAAAAAAAAAAAAAAAAA=A", "AAAAAAAAAAAAAAAAAAAAAB==", "====AAAAAAAAAAAAAAAAAAAA"},
 }
@@ -373,6 +376,11 @@ func LinesFor(t *rapid.T, label string, h HeaderID, s State, open bool) []Line {
 		if ln.Lead == " " && ln.Trail == "" {
 			ln.Trail = "\t"
 		}
+		if rapid.IntRange(0, 7).Draw(t, label+".namepad") == 0 {
+			// blank between the name and the colon ("header names ... surrounding
+			// blanks ignored"; net/http refuses such a line itself)
+			ln.Name += rapid.SampledFrom([]string{" ", "\t", " \t "}).Draw(t, label+".npad")
+		}
 		return []Line{ln}
 	case Wrong:
 		if (h == HUpgrade || h == HVersion || h == HKey) && rapid.IntRange(0, 3).Draw(t, label+".straycr") == 0 {
@@ -400,9 +408,9 @@ func genTokenList(t *rapid.T, label string, vocab []string, max int, open bool) 
 	var b strings.Builder
 	for i := 0; i < n; i++ {
 		if i > 0 {
-			seps := []string{", ", ",", " , ", ",  "}
+			seps := []string{", ", ",", " , ", ",  ", ", ", ",", ",\t", "\t,", ",,", " ,\t, "}
 			if open {
-				seps = append(seps, ",\t", ",,", " ")
+				seps = append(seps, " ", "\t", ";")
 			}
 			b.WriteString(rapid.SampledFrom(seps).Draw(t, label+".sep"))
 		}
@@ -413,7 +421,7 @@ func genTokenList(t *rapid.T, label string, vocab []string, max int, open bool) 
 
 func genProtocolValue(t *rapid.T, label string, open bool) string {
 	if open && rapid.IntRange(0, 3).Draw(t, label+".odd") == 0 {
-		return rapid.SampledFrom([]string{"", "chat,", ",chat", "ch@t", "\"chat\"", "chat; q=1", "chat\tsuperchat", "(x) chat", "chat, sup\\er"}).Draw(t, label+".oddv")
+		return rapid.SampledFrom([]string{"", ",", " , ", "ch@t", "\"chat\"", "chat; q=1", "chat\tsuperchat", "chat superchat", "(x) chat", "chat, sup\\er"}).Draw(t, label+".oddv")
 	}
 	return genTokenList(t, label, protoVocab, 4, open)
 }
@@ -430,7 +438,7 @@ func genExtensionValue(t *rapid.T, label string, open bool, names []string, forc
 	var b strings.Builder
 	for i := 0; i < n; i++ {
 		if i > 0 {
-			b.WriteString(rapid.SampledFrom([]string{", ", ",", " , "}).Draw(t, label+".sep"))
+			b.WriteString(rapid.SampledFrom([]string{", ", ",", " , ", ", ", ",", ",\t", ",,"}).Draw(t, label+".sep"))
 		}
 		name := rapid.SampledFrom(names).Draw(t, label+".name")
 		if i == forceAt {
@@ -439,9 +447,12 @@ func genExtensionValue(t *rapid.T, label string, open bool, names []string, forc
 		b.WriteString(name)
 		np := rapid.IntRange(0, 2).Draw(t, label+".np")
 		for j := 0; j < np; j++ {
-			b.WriteString(rapid.SampledFrom([]string{"; ", ";", " ; "}).Draw(t, label+".psep"))
+			b.WriteString(rapid.SampledFrom([]string{"; ", ";", " ; ", "; ", ";", ";\t"}).Draw(t, label+".psep"))
 			b.WriteString(rapid.SampledFrom(paramKeys).Draw(t, label+".pk"))
 			if v := rapid.SampledFrom(paramVals).Draw(t, label+".pv"); v != "" {
+				if rapid.IntRange(0, 5).Draw(t, label+".quoted") == 0 {
+					v = "\"" + v + "\"" // quoted-string form of the same value
+				}
 				b.WriteString("=" + v)
 			}
 		}
@@ -451,8 +462,8 @@ func genExtensionValue(t *rapid.T, label string, open bool, names []string, forc
 
 // OddExtensionValues are Sec-WebSocket-Extensions values that are not plain
 // option lists (open class: their treatment is decided by httphead).
-var OddExtensionValues = []string{"", "x-a;", ";x-a", "x-a; p=\"1\"", "x-a; p=\"a b\"", "x-a;\tp=1", "x-a,,x-b", "x-a; p = 1", "x-a; =1",
-	"x-a; p=\"a\\\"b\"", "x-a x-b", "x-a; p=\"unterminated", "permessage-deflate; client_max_window_bits=\"15\""}
+var OddExtensionValues = []string{"", ",", "x-a;", ";x-a", "x-a; p=\"a b\"", "x-a; p = 1", "x-a; =1", "x-a;;p",
+	"x-a; p=\"a\\\"b\"", "x-a x-b", "x-a; p=\"unterminated", "x-a; p=\"a,b\"", "x-a; p=\"a;b\""}
 
 var extraHeaders = []HeaderKV{
 	{"Origin", "http://example.com"},
